@@ -349,6 +349,11 @@ func (g *Gen) genProgram(v2 bool, npk int, depth int) ([]GenPkg, []string) {
 			"const C8 = \"0123456789012345678901234567890123456789012345678901234567890123456789X\"",
 			"const C9 string = \"a string constant that is much longer than seventy-two characters, so that constant.Value.String() would abbreviate it ... and more\""}
 		pgConstRound++
+		if pgConstRound%4 == 1 {
+			// an alias declaration for an unnamed composite type, next to other uses of that type: one Go type
+			b.WriteString("type ZTags = []string\n\nvar ZTagsUse []string\n\ntype ZTagsHolder struct {\n\tA ZTags\n\tB []string\n}\n\n")
+			pg.classes["alias-of-unnamed-composite"] = true
+		}
 		if pgConstRound%3 == 0 {
 			// string constants of a DEFINED string type (and an expression derived from one): their value is the
 			// string, not its quoted form
